@@ -39,6 +39,7 @@ from pbt.run import Violation
 WATCHED = (z.SERVER_PRESENCE, z.SCHEDULED, z.EVENTS, z.BLACKEDOUT_SERVERS)
 TRAIT_NAMES = ['ta', 'tb', 'tc']
 UNPUBLISHED_TRAIT = 'tx'
+UNPUBLISHED_TRAITS = ['tx', 'ty']
 PARTS = ['_default', 'partB', 'partC']
 _TIME = {'s': 1, 'm': 60, 'h': 3600, 'd': 86400}
 
@@ -125,6 +126,7 @@ class MasterSim(object):
         self.decl_apps = {}        # name -> declared manifest facts
         self.app_order = []
         self.alloc_loaded = []     # allocations as last loaded by a master
+        self.bl_loaded = []        # application blacklist, likewise
         self.groups = {}
         self.groups_loaded = {}
         self.strict_integrity = False
@@ -282,7 +284,8 @@ class MasterSim(object):
                            for idx, name in enumerate(TRAIT_NAMES)}
         # a trait nodes detect themselves: never published in /traits, the
         # master learns it from server records only
-        self.trait_bits[UNPUBLISHED_TRAIT] = 2 << len(TRAIT_NAMES)
+        for pos, name in enumerate(UNPUBLISHED_TRAITS):
+            self.trait_bits[name] = 2 << (len(TRAIT_NAMES) + pos)
         zkutils.put(zk, z.path.traits(), TRAIT_NAMES)
         for part in PARTS[1:case.get('nparts', 1)]:
             zkutils.put(zk, z.path.partition(part), {})
@@ -420,6 +423,7 @@ class MasterSim(object):
             callback(self, 'starting')
         self.master.load_model()
         self._observe_presence()
+        self._observe_blacklist()
         if on_phase:
             on_phase(self, 'loaded')
         for callback in self.on_restart:
@@ -466,6 +470,19 @@ class MasterSim(object):
             self.restart_master()
             return None
 
+    def _observe_blacklist(self):
+        """Ground truth of the application blacklist = the ZooKeeper node
+        at the moment the master (re)loads it (start, apps_blacklist
+        event)."""
+        data = zkutils.get_default(self.admin, z.BLACKEDOUT_APPS)
+        self.bl_loaded = list(data) if data else []
+
+    def blacklisted_by_truth(self, appname):
+        basename = appname.split('#')[0]
+        return any(fnmatch.fnmatchcase(basename, pattern) or
+                   fnmatch.fnmatch(basename, pattern)
+                   for pattern in self.bl_loaded)
+
     def note_triggers(self):
         for path in WATCHED:
             node = self.tree.nodes.get(path)
@@ -500,6 +517,9 @@ class MasterSim(object):
         self._guard(master_mod.Master.process.__wrapped__, self.master, event)
         if self.generation == generation and event[0] == z.SERVER_PRESENCE:
             self._observe_presence(set(event[1]))
+        if self.generation == generation and event[0] == z.EVENTS and \
+                any('-apps_blacklist-' in name for name in event[1]):
+            self._observe_blacklist()
         self.count('events_processed')
         return True
 
@@ -631,7 +651,7 @@ class MasterSim(object):
             'up_since': up_since,
             'traits': [TRAIT_NAMES[i] for i in range(3)
                        if spec['traits'] & (2 << i)] +
-                      ([UNPUBLISHED_TRAIT] if spec.get('tx') else []),
+                      [name for name in UNPUBLISHED_TRAITS if spec.get(name)],
         }
 
     def op_srv(self, rack_idx, spec):
@@ -941,6 +961,35 @@ class MasterSim(object):
                 masterapi.cell_insert_bucket(self.admin, pod)
         else:
             masterapi.create_event(self.admin, 0, 'cell', None)
+
+    def op_duprecord(self, idx, sidx):
+        """A stale second placement record of a placed instance appears
+        under another server (what an interrupted publication of an older
+        master, or an operator, can leave behind). Loader.restore_placements
+        has a branch for exactly this state."""
+        stored = sorted(self.stored_placement())
+        root = self.tree.nodes.get(z.PLACEMENT)
+        if not stored or root is None:
+            return
+        server, inst = stored[idx % len(stored)]
+        others = sorted(name for name in root.children if name != server)
+        if not others:
+            return
+        other = others[sidx % len(others)]
+        data = zkutils.get_default(self.admin,
+                                   z.path.placement(server, inst))
+        self.tick()
+        zkutils.put(self.admin, z.path.placement(other, inst), data)
+        self.count('duplicate_record_injected')
+
+    def op_cellrm(self, pod_idx):
+        """An admin takes a top level bucket out of the cell (it can be put
+        back with cellev)."""
+        inside = sorted(self.admin.get_children(z.CELL))
+        if len(inside) < 2:
+            return
+        self.tick()
+        masterapi.cell_remove_bucket(self.admin, inside[pod_idx % len(inside)])
 
     def op_running(self, idx):
         name = self._pick_app(idx)
